@@ -7,6 +7,7 @@ import (
 	"sort"
 	"strings"
 	"sync"
+	"sync/atomic"
 	"time"
 
 	"github.com/rbell/toolchest/publisher"
@@ -33,12 +34,14 @@ const (
 type Stim struct {
 	Op   string `json:"op"`
 	Cap  int    `json:"cap,omitempty"`
-	FK   int    `json:"fk,omitempty"`  // filter kind: 0 nil, 1 mod, 2 never
+	FK   int    `json:"fk,omitempty"` // filter kind: 0 nil, 1 mod, 2 never
 	FMod int    `json:"fmod,omitempty"`
 	FRem int    `json:"frem,omitempty"`
 	Tmo  int    `json:"tmo,omitempty"` // index into tmoTicks
 	OnF  bool   `json:"onf,omitempty"`
 	OnT  bool   `json:"ont,omitempty"`
+	CbF  int    `json:"cbf,omitempty"` // what OnFiltered does besides being recorded: 0 nothing, 1 closes its own subscriber
+	CbT  int    `json:"cbt,omitempty"` // what OnTimeout does: 0 nothing, 1 closes its own subscriber, 2 closes the publication
 	M    int    `json:"m,omitempty"`
 	S    int    `json:"s,omitempty"`
 }
@@ -69,6 +72,8 @@ const (
 	evFilter evKind = iota
 	evOnFiltered
 	evOnTimeout
+	evCloseStart // a callback starts Subscriber.Close (aux 1) / Publication.Close (aux 2)
+	evCloseEnd   // ... and that call has returned
 )
 
 type event struct {
@@ -76,6 +81,7 @@ type event struct {
 	sid  int
 	m    int
 	t    time.Duration
+	aux  int
 }
 
 type marker struct {
@@ -101,7 +107,7 @@ type stimResult struct {
 type subH struct {
 	cfg       Stim
 	sub       *publisher.Subscriber[int]
-	closed    bool
+	closed    atomic.Bool
 	accepted  int // accepted messages published while subscribed (by the harness's own filter function)
 	recvCount int
 }
@@ -120,7 +126,7 @@ func (r *runner) shortResolved(mk marker) bool {
 	r.mu.Unlock()
 	long := 0
 	for i, s := range r.subs {
-		if s.closed || i >= len(mk.lens) {
+		if s.closed.Load() || i >= len(mk.lens) {
 			continue
 		}
 		delivered := s.recvCount + mk.lens[i]
@@ -144,10 +150,17 @@ type runner struct {
 
 func (r *runner) since() time.Duration { return time.Since(r.origin) }
 
+func (r *runner) logAux(k evKind, sid, m, aux int) {
+	t := r.since()
+	r.mu.Lock()
+	r.events = append(r.events, event{k, sid, m, t, aux})
+	r.mu.Unlock()
+}
+
 func (r *runner) log(k evKind, sid, m int) {
 	t := r.since()
 	r.mu.Lock()
-	r.events = append(r.events, event{k, sid, m, t})
+	r.events = append(r.events, event{k, sid, m, t, 0})
 	r.mu.Unlock()
 }
 
@@ -256,12 +269,13 @@ func (r *runner) quiesce() (marker, bool) {
 // ---------- executing one script ----------
 
 type execResult struct {
-	stims    []Stim // the stimuli actually executed (script + final drain)
-	res      []stimResult
-	events   []event
-	blocked  bool // a Publish or Close call did not return within the watchdog
-	complete bool
-	notQuiet bool // quiescence was not reached (reported as incomplete, never as a violation)
+	stims     []Stim // the stimuli actually executed (script + final drain)
+	res       []stimResult
+	events    []event
+	blocked   bool // a Publish or Close call did not return within the watchdog
+	cbBlocked bool // ... and it was a Close issued from inside a callback
+	complete  bool
+	notQuiet  bool // quiescence was not reached (reported as incomplete, never as a violation)
 }
 
 const watchdog = 3 * time.Second
@@ -287,14 +301,37 @@ func (r *runner) doStim(st Stim) (stimResult, bool) {
 				}))
 			}
 			opts = append(opts, publisher.WithTimeout[int](time.Duration(tmoTicks[st.Tmo])*tickDur))
+			h := &subH{cfg: st}
+			// a callback may close its own subscriber or the whole publication (from inside the callback)
+			act := func(kind, m int) {
+				if kind == 0 {
+					return
+				}
+				r.logAux(evCloseStart, sid, m, kind)
+				if kind == 1 {
+					h.sub.Close()
+					h.closed.Store(true)
+				} else {
+					r.pub.Close()
+					r.mu.Lock()
+					all := append([]*subH(nil), r.subs...)
+					r.mu.Unlock()
+					for _, x := range all {
+						x.closed.Store(true)
+					}
+				}
+				r.logAux(evCloseEnd, sid, m, kind)
+			}
 			if st.OnF {
-				opts = append(opts, publisher.OnFiltered(func(m int) { r.log(evOnFiltered, sid, m) }))
+				opts = append(opts, publisher.OnFiltered(func(m int) { r.log(evOnFiltered, sid, m); act(cfg.CbF, m) }))
 			}
 			if st.OnT {
-				opts = append(opts, publisher.OnTimeout(func(m int) { r.log(evOnTimeout, sid, m) }))
+				opts = append(opts, publisher.OnTimeout(func(m int) { r.log(evOnTimeout, sid, m); act(cfg.CbT, m) }))
 			}
-			s := r.pub.Subscribe(st.Cap, opts...)
-			r.subs = append(r.subs, &subH{cfg: st, sub: s})
+			h.sub = r.pub.Subscribe(st.Cap, opts...)
+			r.mu.Lock()
+			r.subs = append(r.subs, h)
+			r.mu.Unlock()
 		case opPub:
 			r.pub.Publish(st.M)
 		case opRecv:
@@ -310,15 +347,13 @@ func (r *runner) doStim(st Stim) (stimResult, bool) {
 			}
 		case opCloseSub:
 			r.subs[st.S].sub.Close()
-			if !r.subs[st.S].closed {
-				r.subs[st.S].closed = true
+			if !r.subs[st.S].closed.Swap(true) {
 				sr.closedSubs = []int{st.S}
 			}
 		case opClosePub:
 			r.pub.Close()
 			for i, s := range r.subs {
-				if !s.closed {
-					s.closed = true
+				if !s.closed.Swap(true) {
 					sr.closedSubs = append(sr.closedSubs, i)
 				}
 			}
@@ -369,7 +404,7 @@ func runScript(sc Script) execResult {
 		}
 		if st.Op == opPub {
 			for _, s := range r.subs {
-				if !s.closed && s.cfg.Tmo != 2 {
+				if !s.closed.Load() && s.cfg.Tmo != 2 {
 					d := sr.tEnd + time.Duration(tmoTicks[s.cfg.Tmo])*tickDur
 					if d > lastShortDeadline {
 						lastShortDeadline = d
@@ -395,7 +430,7 @@ func runScript(sc Script) execResult {
 		}
 		if st.Op == opPub {
 			for _, s := range r.subs {
-				if !s.closed && accepts(s.cfg, st.M) {
+				if !s.closed.Load() && accepts(s.cfg, st.M) {
 					s.accepted++
 				}
 			}
@@ -459,6 +494,26 @@ func runScript(sc Script) execResult {
 		}
 		out.complete = true
 	}()
+	// a Close called from inside a callback must have returned by now (generous: 3s)
+	unfinished := func() bool {
+		r.mu.Lock()
+		defer r.mu.Unlock()
+		n := 0
+		for _, e := range r.events {
+			if e.kind == evCloseStart {
+				n++
+			} else if e.kind == evCloseEnd {
+				n--
+			}
+		}
+		return n != 0
+	}
+	for deadline := time.Now().Add(watchdog); unfinished() && time.Now().Before(deadline); {
+		time.Sleep(5 * time.Millisecond)
+	}
+	if unfinished() {
+		out.blocked, out.cbBlocked, out.complete = true, true, false
+	}
 	r.mu.Lock()
 	out.events = append([]event(nil), r.events...)
 	r.mu.Unlock()
